@@ -87,6 +87,10 @@ def make_labelers(mode, salts=None, n=4):
     """state / action / option-name labelers. mode 'str' or 'salt' (salts: dict name -> hash value)."""
     if mode == 'str':
         return (lambda i: 'state%d' % i), (lambda a: 'act_' + a), (lambda nm: 'opt_' + nm)
+    if mode == 'fd':
+        # unsortable labels whose hash goes through salted strings (what the built-in grid worlds use for states and actions)
+        from frozendict import frozendict
+        return (lambda i: frozendict({'cell': 'c%d' % i})), (lambda a: frozendict({'move': 'act_' + a})), (lambda nm: 'opt_' + nm)
     mk = lambda nm: Salted(nm, salts[nm])
     return (lambda i: mk('state%d' % i)), (lambda a: mk('act_' + a)), (lambda nm: mk('opt_' + nm))
 
@@ -282,7 +286,16 @@ def run_component(name, pi, seed, labelers):
             pol = FunctionalPolicy(lambda s: DictDistribution({al('a'): 0.5, al('b'): 0.5}))
             traj = pol.run_on(mdp, rng=random.Random(seed))
             ev = pol.evaluate_on(mdp, n_simulations=4, rng=random.Random(seed))
-            return canon([[dict(st) for st in traj.steps], ev.initial_value, {s: float(ev.state_value[s]) for s in ev.state_value.state_list}])
+            # roll-outs of planned (tabular) policies: ties are broken by draws over the policy's own action order
+            from msdm.algorithms import ValueIteration
+            planned = []
+            gmdp = build_mdp(GRAPH, sl, al)[0]          # the graph with tied optimal actions
+            for ver in ('vectorized', 'dict'):
+                for m_ in (mdp, gmdp):
+                    ppol = ValueIteration(_version=ver).plan_on(m_).policy
+                    planned.append([[dict(st) for st in ppol.run_on(m_, rng=random.Random(seed), max_steps=12).steps] for _ in range(2)])
+            return canon([[dict(st) for st in traj.steps], ev.initial_value, {s: float(ev.state_value[s]) for s in ev.state_value.state_list},
+                          planned])
         if name == 'pomdp_rollout':
             from msdm.algorithms.qmdp import QMDP
             pol = QMDP().plan_on(mdp).policy
@@ -448,6 +461,11 @@ def worker_main(argv):
                     out['%s|%d|%s' % (c, pi, sd)] = json.dumps(run_component(c, pi, sd, lab))
                 except Exception as e:
                     out['%s|%d|%s' % (c, pi, sd)] = 'EXC ' + repr(e)[:200]
+                if c in ('mdp_rollout', 'rmax', 'qlearning', 'lrtdp'):
+                    try:
+                        out['%s|%d|%s|unsortable labels' % (c, pi, sd)] = json.dumps(run_component(c, pi, sd, make_labelers('fd')))
+                    except Exception as e:
+                        out['%s|%d|%s|unsortable labels' % (c, pi, sd)] = 'EXC ' + repr(e)[:200]
     print(json.dumps(out))
 
 
